@@ -345,6 +345,10 @@ def run(tier: str) -> int:
             ([{"processor": "TSourceDef"}, {"processor": "TOp0"}, dict(snk)], "dryRun", ("none_", None)),
             ([{"processor": "TSourceDef"}, {"processor": "TOp0"}, dict(snk)], "rsDryRun", ("none_", None)),
             ([{"processor": "TSourceDef"}, {"processor": "TOp0"}, dict(snk)], "none_", ("none_", None)),
+            # an IO component with a keyword-only required parameter: it is required like any other
+            ([{"processor": "TSourceDef"}, {"processor": "TSinkKw", "parameters": {"path": sink}}, dict(snk)], "none_", ("missingKey", None)),
+            ([{"processor": "TSourceDef"}, {"processor": "TSinkKw", "parameters": {"path": sink}}], "dryRun", ("missingKey", None)),
+            ([{"processor": "TSourceDef"}, {"processor": "TSinkKw", "parameters": {"path": sink, "tag": "t"}}], "none_", ("none_", None)),
             # the run space in its own file, combined with the run-space options of the command line
             ([{"processor": "TSource"}, dict(snk)], "none_", ("capExceeded", None, {"rs_in_file": True, "cap_via": "cli"})),
             ([{"processor": "TSource"}, dict(snk)], "rsDryRun", ("none_", None, {"rs_in_file": True, "flag_via": "cli"})),
